@@ -102,8 +102,8 @@ CHECKS = {
                 ref='3/C19'),
     'C20': dict(cat='model_checking', engine='E3',
                 technique='own IR symbolic executor on the real MemoryPool / Container / DenseVector / SparseMatrixCSR / SparseLayout code with symbolic operation codes; region liveness checks + z3 reference-count oracle',
-                text='Partial (stated): every bounded history of pool operations (allocate/increase/release), DenseVector lifetime operations (construct, clone in every mode, clear, move, range view, convert, write) and CSR/layout operations (share layout, move-construct layout, clone, clear, move) is a path of the symbolic execution; each access is checked for bounds and liveness (use after free, double free, release of unknown address = abort), pool size follows the reference-count model after each step, and the pool is empty when all containers are gone.',
-                note='Trusted: clang-14 IR, irsym executor, BST model of the 4 out-of-line rb-tree primitives of std::map, allocation-order address model, z3 5.1.0; interpreter validated against an ASan native build each run. API preconditions of range views are respected by the driver. Outside: other container kinds, conversions between data types, histories longer than the bound.',
+                text='Partial (stated): every bounded history of pool operations (allocate/increase/release), DenseVector lifetime operations (construct, clone in every mode, clear, move, range view, convert, write) and CSR/layout operations (share layout, move-construct / move-assign layout, clone, clear, move) is a path of the symbolic execution; each access is checked for bounds and liveness (use after free, double free, release of unknown address = abort), pool size follows the reference-count model after each step, and the pool is empty when all containers are gone.',
+                note='Trusted: clang-14 IR, irsym executor, BST model of the 4 out-of-line rb-tree primitives of std::map, allocation-order address model, z3 5.1.0; interpreter validated against an ASan native build each run. API preconditions of range views are respected by the driver. One defect found and fixed (SparseLayout move assignment leak). Outside: other container kinds, conversions between data types, histories longer than the bound.',
                 ref='3/C20'),
 }
 NA_REASON = {}
